@@ -407,6 +407,19 @@ class World(SessionWorld):
                     f = self.call(S.subscribe, lambda *a: None, "com.x.topic%d" % self.ops_left)
                 else:
                     f = self.call(S.register, lambda *a: None, "com.x.reg%d" % self.ops_left)
+                if ch.flag("reentrant-errback", 0.2):
+                    # the application reacts to the failure of this request by issuing another one from inside the
+                    # errback (re-entrancy into the session while it is failing its outstanding requests)
+                    def eb(fail, S=S):
+                        self.run.probe("reentrant-request-from-errback")
+                        try:
+                            f2 = S.call("com.x.retry", 2)
+                        except Exception as e:  # noqa
+                            self.run.log("reentrant-raised", type(e).__name__)
+                        else:
+                            self.futs.append(("call", self.fw.watch(f2), "reentrant"))
+                        return fail
+                    txaio.add_callbacks(f, None, eb)
                 self.futs.append((what, self.fw.watch(f), phase))
                 if phase == "joined":
                     self.run.probe("outstanding-request:" + what)
